@@ -103,7 +103,7 @@ def all_cfgs(thorough):
 
 
 def planpath_cfgs():
-    for pp in (1, 2, 3):
+    for pp in (1, 2, 3, 4, 5):
         for beh in range(len(DETECT_BEH)):
             for stale in (False, True):
                 yield {"phase": "detect", "arg0": 0, "argc": 2, "toml": "valid", "bpdir": True, "env": {k: True for k in MANDATORY}, "variant": False, "stale": stale, "beh": beh, "planpath": pp}
@@ -164,8 +164,18 @@ def judge(w, cfg):
             plan_real = w.p("app", "plan.toml")
             if cfg["stale"]:
                 open(plan_real, "wb").write(STALE["plan.toml"])
-        else:
+        elif pp == 3:
             full[1] = w.p("nodir", "plan.toml")
+            plan_real = full[1]
+        else:
+            # arguments that are not valid UTF-8 (legal path names): pp 4 = the plan path, pp 5 = the platform directory
+            os.makedirs(w.p("out"), exist_ok=True)
+            if pp == 4:
+                full = [w.p("platform").encode(), w.p("out").encode() + b"/pl\xffan.toml"]
+            else:
+                os.makedirs(w.p("plat").encode() + b"\xffform/env")
+                open(w.p("plat").encode() + b"\xffform/env/VAR", "w").write("from-the-named-platform-dir")
+                full = [w.p("plat").encode() + b"\xffform", w.p("out", "plan.toml").encode()]
             plan_real = full[1]
     path_of = lambda rel: plan_real if rel == "plan.toml" else w.p(rel)
     args = (full + ["extra1", "extra2"])[: cfg["argc"]]
@@ -194,6 +204,32 @@ def judge(w, cfg):
     code = r.returncode
     after = {rel: read_bytes(path_of(rel)) for rel in OUTPUTS}
     marks = w.markers()
+    if phase == "detect" and pp in (4, 5):
+        # either handled exactly (phase ran once, plan at exactly the named path) or refused with an
+        # error and nothing written; never a different file, never a silently different directory
+        v = []
+        listing = sorted(os.listdir(w.p("out").encode()))
+        want_name = os.path.basename(plan_real)
+        beh = DETECT_BEH[cfg["beh"]]
+        ran = marks.count("detect")
+        what = f"non-UTF-8 {'plan path' if pp == 4 else 'platform directory'} argument, behaviour {beh}: exit {code}, detect ran {ran}x, out/ holds {listing}"
+        if ran == 0:
+            if code in (0, 100) or listing:
+                v.append(("unrepresentable-argument-not-reported", what + f" [config {json.dumps(cfg, sort_keys=True)}]"))
+        else:
+            ok_codes = {"pass": (0,), "pass_plan": (0,), "fail": (100,)}.get(beh)
+            want_listing = [want_name] if beh == "pass_plan" else []
+            seen_env = True
+            if pp == 5:
+                try:
+                    seen_env = any(bytes.fromhex(k) == b"VAR" for k, _ in json.load(open(w.dump))["context"]["platform_env"])
+                except (OSError, ValueError, KeyError):
+                    seen_env = False
+            if not seen_env:
+                v.append(("argument-bytes-altered", what + f": the platform directory that was named holds env/VAR, the context does not [config {json.dumps(cfg, sort_keys=True)}]"))
+            elif (ok_codes and code not in ok_codes) or (beh == "error" and code in (0, 100)) or listing != want_listing:
+                v.append(("argument-bytes-altered", what + f", expected out/ to hold {want_listing} [config {json.dumps(cfg, sort_keys=True)}]"))
+        return v, f"detect-nonutf8:{code}:{ran}:{len(listing)}"
     n_phase = marks.count("detect") + marks.count("build")
     n_err = marks.count("on_error")
     changed = [rel for rel in OUTPUTS if before[rel] != after[rel]]
@@ -359,7 +395,7 @@ def run(ctx):
     res.cov("distinct_nontrivial", len(nontrivial))
     res.cov("distinct_outcomes", sorted(outcomes))
     res.cov("determinism_replays", 5)
-    res.cov("rule", "configurations = executable name (phase, other, path/phase, phase.bak) x argument count 0..4 x buildpack.toml (valid, api 0.9/0.11/1/missing, malformed, file missing, unknown key) x CNB_BUILDPACK_DIR x each mandatory CNB_TARGET_* variable x ARCH_VARIANT x behaviour (4 detect; 16 pass results x SBOM sets + error + layer error for build) x stale outputs; plus, for valid detect invocations, the plan path as a bare file name, ./name and a path in a missing directory x 4 behaviours; each run as a real process; plus every in-process sequence of 2 (thorough 3) programmatic detect/build calls over 12 symbols, exit status and written files of each step compared with the same call alone in a fresh process; non-trivial = configurations that reach the phase or deviate from a valid invocation in exactly one dimension")
+    res.cov("rule", "configurations = executable name (phase, other, path/phase, phase.bak) x argument count 0..4 x buildpack.toml (valid, api 0.9/0.11/1/missing, malformed, file missing, unknown key) x CNB_BUILDPACK_DIR x each mandatory CNB_TARGET_* variable x ARCH_VARIANT x behaviour (4 detect; 16 pass results x SBOM sets + error + layer error for build) x stale outputs; plus, for valid detect invocations, the plan path as a bare file name, ./name, a path in a missing directory and non-UTF-8 plan / platform paths x 4 behaviours; each run as a real process; plus every in-process sequence of 2 (thorough 3) programmatic detect/build calls over 12 symbols, exit status and written files of each step compared with the same call alone in a fresh process; non-trivial = configurations that reach the phase or deviate from a valid invocation in exactly one dimension")
     res.cov("bound", {"deviations_from_valid_invocation": "<=3 all behaviours" if not ctx.thorough else "full product for detect and for build up to 3 deviations; beyond that build behaviours {first,last}"})
     res.cov("exhaustive", True)
     res.sample(cfgs[0])
